@@ -5,8 +5,9 @@ RelEqual == {"equal"}
 RelC04 == {"equal", "reversed", "subset"}
 FamT == {"EOF", "EOFstd", "ComplexEOF", "SparsePCA", "POP", "EOFRotator1", "EOFRotator2", "EOFRotator3", "ComplexEOFRotator2",
          "MCA", "CCA", "RDA", "CPCCA05", "CPCCA0_1", "ComplexMCA", "ComplexCPCCA05", "MCARotator1", "CPCCARotator2", "CPCCARotator3", "ComplexCPCCARotator1", "multiCCA",
-         "EOFnan", "MCAnan", "EOFRotator2nan"}
-FamQ == {"EOF", "ComplexEOF", "SparsePCA", "POP", "EOFRotator2", "MCA", "CCA", "CPCCA05", "ComplexCPCCA05", "CPCCARotator2", "MCARotator1", "multiCCA", "RDA", "EOFRotator3", "EOFnan", "MCAnan"}
+         "EOFnan", "MCAnan", "EOFRotator2nan", "EOFw", "EOFRotator2w", "MCARotator1w", "CPCCA05w"}
+FamQ == {"EOF", "ComplexEOF", "SparsePCA", "POP", "EOFRotator2", "MCA", "CCA", "CPCCA05", "ComplexCPCCA05", "CPCCARotator2", "MCARotator1", "multiCCA", "RDA", "EOFRotator3", "EOFnan", "MCAnan",
+         "EOFRotator2w", "MCARotator1w"}    \* suffix w: fitted with non-constant feature weights
 SLAll == {"one", "two", "multi"}
 SLQ == {"one", "two"}
 NzBoth == {FALSE, TRUE}
